@@ -35,6 +35,17 @@ HIST_RULE = ("message histories: 1200 (thorough 30000) random histories of 2..8 
              "composite and a tagged composite nesting a positional one")
 
 PROPS = {
+    "C18": {
+        "topics": ["leak"],
+        "nontrivial": lambda c, i: "c18" in c or (c.startswith("(desc") and len(c) > 30),
+        "rule": "Describe masking through the real Describe on the shipped specs for 600 (thorough 12000) PAN / PIN-block values of every length 0..24; 400 (thorough 8000) generated "
+                "message specs, each with a high-entropy 12-19 character secret: set correct and with one corrupted character, packed, JSON-encoded, spliced into valid wire "
+                "messages at random offsets / in front, mutated, sent as JSON with wrong types, unmarshalled into int/int64/string/[]byte and pointer targets, marshalled under "
+                "wrong types; the oracle greps every error text and Describe output of the library for the secret; non-trivial = distinct secret-bearing case",
+        "trusted_base": MODEL_TB + ["translator: Gen/ErrorSites.v is a syntactic (go/ast) catalogue of error construction sites and of quoting-error flows; its argument classification is trusted and cross-checked by the dynamic secret search"],
+        "assumptions": ["track fields (Track1/2/3) and their Describe filters are not modelled: covered by the oracle only when such specs are used",
+                        "spec import/export errors (specs/) speak about spec documents, not message contents"],
+    },
     "C13": {
         "topics": [],
         "extra": c13_extra,
